@@ -99,6 +99,8 @@ PROPS = {
                       "completion_chain", "ids_mixed_none", "ids_mixed_shallow", "ids_implicit"], ["lifecycle"], 800, 40000, variants=ALLV)
                 + jobs(["queue_nested", "nest2_mixed"], ["queue"], 600, 30000, variants=ALLV)
                 + jobs(["nest2_mixed"], ["reentrant"], 300, 3000, variants=["B", "M"])
+                # the configuration must also be intact under the other active-state-switch policies (second seeded defect C03)
+                + jobs(["nest2_mixed", "conflict_ortho", "order_rows"], ["lifecycle"], 400, 20000, variants=POLV)
                 + rand_jobs("struct", ["lifecycle"], 600, 8000) + rand_jobs("pseudo", ["lifecycle"], 0, 6000) + rand_jobs("hist", ["observe"], 0, 6000),
         "nontrivial": ["stopstart"],
         "rule": "histories of start / process_event / enqueue / stop with full introspection (active ids per level, is_state_active, "
@@ -177,6 +179,8 @@ PROPS = {
                 + [job("completion_chain", "throws", 12, 300, variants=["M", "B"], valgrind=True),
                    job("nest2_mixed", "throws", 8, 200, variants=["M", "B"], valgrind=True)]
                 + rand_jobs("struct", ["throws"], 0, 6000) + rand_jobs("compl", ["throws"], 0, 6000) + rand_jobs("pseudo", ["throws"], 0, 6000)
+                # ... and under valgrind (one plan per process) on two random specs with completion rows (thorough tier)
+                + [dict(j, valgrind=True, thorough=100, variants=[v for v in j["variants"] if v in ("B", "M")]) for j in rand_jobs("compl", ["throws"], 0, 1, nthorough=9) if j["family"] in ("rand_compl_3", "rand_compl_8")]
                 # the same under ASan / UBSan on a few random specs (thorough tier)
                 + [dict(j, san="_asan", thorough=1500) for j in rand_jobs("compl", ["throws"], 0, 1, nthorough=4) + rand_jobs("pseudo", ["throws"], 0, 1, nthorough=2)],
         "nontrivial": ["throw"],
